@@ -1,14 +1,14 @@
 SPECIFICATION Spec
 CONSTANTS
   Variant = "repaired"
-  CompInits <- None
+  CompInits <- CompInitsNear
   LocoInits <- None
-  LoadFiles <- AllLoads
+  LoadFiles <- None
   CompOps <- CompOpsAll
   LocoOps <- LocoOpsQ
   Targets <- One
-  Near = FALSE
-  MaxOps = 1
+  Near = TRUE
+  MaxOps = 2
 INVARIANT ComponentConsistent
 INVARIANT LocoConsistent
 INVARIANT Traction
